@@ -40,6 +40,9 @@ pub enum Case {
     Project { c: P2, r: f64, p: P2 },
     Arc3 { p0: P2, p1: P2, p2: P2, collinear: bool, #[serde(default = "one")] scale: f64 },
     ArcBox { c: P2, r: f64, a0: f64, sweep: f64 },
+    /// a segment with one end exactly on the circle (lattice construction: centre (cx,cy)k, radius 5k, end at centre +
+    /// a (3,4,5)-type offset times k), the other end at a lattice offset from it; on_b: the end on the circle is b
+    SegEnd { cx: i32, cy: i32, exp2: i32, which: u8, other: (i32, i32), on_b: bool },
     /// the inner case with every length multiplied by 2^exp2 (exact, so lattice constructions stay exact)
     Scaled { exp2: i32, inner: Box<Case> },
 }
@@ -73,13 +76,13 @@ impl Property for C11 {
     type Case = Case;
     const ID: &'static str = "C11";
     fn rule() -> &'static str {
-        "families: circle pairs parameterised by relative position (far, just outside, exactly externally tangent via 3-4-5 lattice constructions, crossing, exactly internally tangent, nested, concentric, equal radii) posed by exact quarter turns + lattice shifts or a general isometry (centres up to 1e3); external points at d/r = 1 + 10^[-6,3]; lines at any distance incl. exactly tangent (axis-parallel on a lattice, and in a general direction to within a few ulps), unit and non-unit directions, segments; curve x circle; point triples in general position and exactly collinear; arcs with any centre, start angle in +-4pi and sweep in [-2pi, 2pi] incl. +-2pi, multiples of pi/2 and +-1e-9. A quarter of the pair / external point / projection / arc-box cases are rescaled as a whole by a power of two between 2^-20 and 2^20 (1e-6 .. 1e6; the library's documented absolute zero of 1e-10 sets the lower end). Oracle: the defining constraints (on both objects, count by configuration, perpendicular radius, documented left/right order, bounding box contains and touches). Non-trivial: neither circle centred at the origin and r/d farther than 0.05 from 1/sqrt 2. Distinct = distinct canonical JSON."
+        "families: circle pairs parameterised by relative position (far, just outside, exactly externally tangent via 3-4-5 lattice constructions, crossing, exactly internally tangent, nested, concentric, equal radii) posed by exact quarter turns + lattice shifts or a general isometry (centres up to 1e3); external points at d/r = 1 + 10^[-6,3]; lines at any distance incl. exactly tangent (axis-parallel on a lattice, and in a general direction to within a few ulps), unit and non-unit directions, segments (incl. lattice segments with one end exactly on the circle); curve x circle; point triples in general position and exactly collinear; arcs with any centre, start angle in +-4pi and sweep in [-2pi, 2pi] incl. +-2pi, multiples of pi/2 and +-1e-9. A quarter of the pair / external point / projection / arc-box cases are rescaled as a whole by a power of two between 2^-20 and 2^20 (1e-6 .. 1e6; the library's documented absolute zero of 1e-10 sets the lower end). Oracle: the defining constraints (on both objects, count by configuration, perpendicular radius, documented left/right order, bounding box contains and touches). Non-trivial: neither circle centred at the origin and r/d farther than 0.05 from 1/sqrt 2. Distinct = distinct canonical JSON."
     }
     fn cases(t: Tier) -> u32 {
         t.pick(6_000_000, 50_000_000)
     }
     fn expected_labels() -> Vec<&'static str> {
-        vec!["pair_far", "pair_just_outside", "pair_touch_exact", "pair_crossing", "pair_inner_touch_exact", "pair_nested", "pair_concentric", "tangent_point", "line_0", "line_1", "line_2", "line_tangent_generic", "segment", "curve_circle", "project", "arc3", "arc3_collinear", "arc_box", "outer_tangents", "unit_below_1", "unit_above_1"]
+        vec!["pair_far", "pair_just_outside", "pair_touch_exact", "pair_crossing", "pair_inner_touch_exact", "pair_nested", "pair_concentric", "tangent_point", "line_0", "line_1", "line_2", "line_tangent_generic", "segment", "curve_circle", "project", "arc3", "arc3_collinear", "arc_box", "outer_tangents", "unit_below_1", "unit_above_1", "segment_end_on_circle"]
     }
     fn check(case: &Case) -> Verdict {
         check_case(case)
@@ -106,6 +109,7 @@ impl C11 {
             1 => (p2(100.0), logu(-1.0, 2.0), p2(150.0)).prop_map(|(c, r, p)| Case::Project { c, r, p }),
             2 => (p2(50.0), p2(50.0), p2(50.0), prop::bool::weighted(0.15), prop_oneof![2 => Just(1.0), 3 => logu(-5.0, 2.0)]).prop_map(|(p0, p1, p2, collinear, scale)| Case::Arc3 { p0, p1, p2, collinear, scale }),
             3 => (p2(100.0), logu(-1.0, 2.0), unif(-4.0 * PI, 4.0 * PI), sweep()).prop_map(|(c, r, a0, sweep)| Case::ArcBox { c, r, a0, sweep }),
+            1 => (-50i32..=50, -50i32..=50, -10i32..=10, 0u8..12, (-12i32..=12, -12i32..=12), any::<bool>()).prop_map(|(cx, cy, exp2, which, other, on_b)| Case::SegEnd { cx, cy, exp2, which, other, on_b }),
         ]
         .boxed()
     }
@@ -120,6 +124,7 @@ fn check_case(case: &Case) -> Verdict {
         Case::Project { c, r, p } => project(c, *r, p),
         Case::Arc3 { p0, p1, p2, collinear, scale } => arc3(p0, p1, p2, *collinear, *scale),
         Case::ArcBox { c, r, a0, sweep } => arc_box(c, *r, *a0, *sweep),
+        Case::SegEnd { cx, cy, exp2, which, other, on_b } => seg_end(*cx, *cy, *exp2, *which, *other, *on_b),
         Case::Scaled { exp2, inner } => match scale_case(inner, 2f64.powi(*exp2)) {
             Some(c) => match check_case(&c) {
                 Verdict::Pass(mut p) => {
@@ -131,6 +136,37 @@ fn check_case(case: &Case) -> Verdict {
             None => Verdict::Discard("family is not scaled"),
         },
     }
+}
+
+/// A segment is closed: a crossing or touch exactly at either of its ends is an intersection (the library documents a
+/// band of 1e-10 around the parameter range for this).
+fn seg_end(cxi: i32, cyi: i32, exp2: i32, which: u8, other: (i32, i32), on_b: bool) -> Verdict {
+    let mut cx = Ctx::new();
+    cx.label("segment_end_on_circle");
+    let k = 2f64.powi(exp2);
+    let offs: [(i32, i32); 12] = [(5, 0), (0, 5), (-5, 0), (0, -5), (3, 4), (4, 3), (-3, 4), (-4, 3), (3, -4), (4, -3), (-3, -4), (-4, -3)];
+    let (ox, oy) = offs[which as usize % 12];
+    if other == (0, 0) {
+        return Verdict::Discard("zero-length segment");
+    }
+    let c0 = Point2::new(cxi as f64 * k, cyi as f64 * k);
+    let r = 5.0 * k;
+    let on = Point2::new((cxi + ox) as f64 * k, (cyi + oy) as f64 * k);
+    let far = Point2::new((cxi + ox + other.0) as f64 * k, (cyi + oy + other.1) as f64 * k);
+    let circle = Circle2::from_point(c0, r);
+    let (a, b) = if on_b { (far, on) } else { (on, far) };
+    let Ok(seg) = Segment2::try_new(a, b) else { return Verdict::Discard("segment rejected") };
+    let pts: Vec<Point2> = match guarded(|| circle.intersection(&seg)) {
+        Ok(p) => p,
+        Err(m) => return Verdict::fail("C11/circle_x_segment/panic", m),
+    };
+    let tol = 1e-9 * (r + c0.coords.norm() + (far - on).norm());
+    ensure!(pts.iter().any(|p| (p - on).norm() <= tol), if on_b { "C11/circle_x_segment/end_b_on_circle_missed" } else { "C11/circle_x_segment/end_a_on_circle_missed" }, "segment {:?} -> {:?} has its {} end exactly on the circle ({:?}, r={r:e}) but the intersection {:?} does not contain it", a, b, if on_b { "second" } else { "first" }, c0, pts);
+    for p in &pts {
+        ensure!(circle.distance_to(p).abs() <= tol, "C11/circle_x_segment/not_on_circle", "segment intersection {:e} off the circle", circle.distance_to(p));
+    }
+    cx.nontrivial();
+    cx.pass()
 }
 
 fn cross(a: &Vector2, b: &Vector2) -> f64 {
